@@ -251,7 +251,8 @@ func (multi *MultiEpoch) handleGetBlock(ctx context.Context, conn *requestContex
 						txNode, err := epochHandler.GetTransactionByCid(ctx, tcid)
 						if err != nil {
 							klog.Errorf("failed to decode Transaction %s: %v", tcid, err)
-							return nil
+							// the request fails: leaving a nil node in allTransactionNodes crashes the loop below
+							return fmt.Errorf("failed to get transaction %s: %w", tcid, err)
 						}
 						mu.Lock()
 						allTransactionNodes[entryIndex][txI] = txNode
